@@ -93,6 +93,12 @@ def gen_history(rng):
     fits = {n: rng.random() < 0.3 for n in names}
     bounds = {n: (fr(10 ** rng.randint(-3, 1)), fr(10 ** rng.randint(2, 5))) for n in names}
     dcomp = {n: rng.random() < 0.3 for n in MODEL_D + OBS_D}
+    # one parameter may hold a negative value (an offset, say): it stays in linear mode with linear priors, since a
+    # log-space view of a negative value has no meaning
+    negp = rng.choice(names) if rng.random() < 0.3 else None
+    if negp:
+        vals[negp] = -vals[negp]
+        modes[negp] = 'linear'
     ops = []
     nfit_guess = 3
     for _ in range(rng.randint(0, 40)):
@@ -104,7 +110,7 @@ def gen_history(rng):
         if k in ('enable_fit', 'disable_fit'):
             ops.append((k, n))
         elif k == 'set_mode':
-            ops.append((k, n, rng.choice(['linear', 'log'])))
+            ops.append((k, n, 'linear' if n == negp else rng.choice(['linear', 'log'])))
         elif k == 'set_boundary':
             lo, hi = fr(10 ** rng.randint(-4, 1)), fr(10 ** rng.randint(2, 6))
             ops.append((k, n, lo, hi))
@@ -112,7 +118,7 @@ def gen_history(rng):
             ops.append((k, n, fr(rng.choice([0.1, 0.5, 0.9])), fr(rng.choice([1.1, 2, 10]))))
         elif k == 'set_prior':
             lo, hi = fr(rng.randint(-3, 1)), fr(rng.randint(2, 6))
-            ops.append((k, n, rng.random() < 0.5, lo, hi))
+            ops.append((k, n, (rng.random() < 0.5) and n != negp, lo, hi))
         elif k in ('enable_derived', 'disable_derived'):
             dn = rng.choice(MODEL_D + OBS_D) if rng.random() > 0.06 else 'zz'
             ops.append((k, dn))
